@@ -851,6 +851,15 @@ func c10PatchProp(rec *verifkit.Recorder) func(t *rapid.T) {
 						}
 					}
 				}
+				// A combine patch (or a plain patch whose path names the field "*") can itself create a map key
+				// literally named "*"; rename it so that a later wildcard patch does not hit the known finding
+				// wildcard-star-key (unbounded recursion in crossplane-runtime, which would kill the process).
+				nstar := 0
+				c10StarKeys(xr.Object, &nstar)
+				c10StarKeys(cd.Object, &nstar)
+				if nstar > 0 && c10Rec != nil {
+					c10Rec.Excluded()
+				}
 				if err != nil && src != nil && len(p.Transforms) == 0 && (p.Combine == nil) {
 					// an erroring patch must not have half-written the destination when there was nothing to write
 					_ = dstBefore
